@@ -109,6 +109,30 @@ def rightRotate (s : St) (x : Nat) : St :=
   let s5 := s4.setRight y x
   s5.setParent x y
 
+/-- `insertFixup`, case 1 (uncle `y` red): recolour parent, uncle, grandparent -/
+def insCase1 (s : St) (z y : Nat) : St :=
+  let s := s.setRed (s.parentOf z) false
+  let s := s.setRed y false
+  s.setRed (s.parentOf (s.parentOf z)) true
+
+/-- `insertFixup`, cases 2+3 when the parent is a LEFT child:
+`if z == z.Parent.Right { z = z.Parent; leftRotate(z) }; z.Parent.Color = BLACK; z.Parent.Parent.Color = RED; rightRotate(z.Parent.Parent)`.
+Returns the store and the new `z`. -/
+def insCase23L (s : St) (z : Nat) : St × Nat :=
+  let z' := if z = (s.nd (s.parentOf z)).right then s.parentOf z else z
+  let s := if z = (s.nd (s.parentOf z)).right then leftRotate s (s.parentOf z) else s
+  let s := s.setRed (s.parentOf z') false
+  let s := s.setRed (s.parentOf (s.parentOf z')) true
+  (rightRotate s (s.parentOf (s.parentOf z')), z')
+
+/-- mirror image of `insCase23L` (parent is a RIGHT child) -/
+def insCase23R (s : St) (z : Nat) : St × Nat :=
+  let z' := if z = (s.nd (s.parentOf z)).left then s.parentOf z else z
+  let s := if z = (s.nd (s.parentOf z)).left then rightRotate s (s.parentOf z) else s
+  let s := s.setRed (s.parentOf z') false
+  let s := s.setRed (s.parentOf (s.parentOf z')) true
+  (leftRotate s (s.parentOf (s.parentOf z')), z')
+
 /-- `mapImp.insertFixup` -/
 def insertFixup : Nat → St → Nat → St
   | 0, s, _ => { s with fault := true }
@@ -117,31 +141,17 @@ def insertFixup : Nat → St → Nat → St
       if s.parentOf z = (s.nd (s.parentOf (s.parentOf z))).left then
         let y := (s.nd (s.parentOf (s.parentOf z))).right
         if (s.nd y).red then
-          let s := s.setRed (s.parentOf z) false
-          let s := s.setRed y false
-          let s := s.setRed (s.parentOf (s.parentOf z)) true
-          insertFixup f s (s.parentOf (s.parentOf z))
+          let s' := insCase1 s z y
+          insertFixup f s' (s'.parentOf (s'.parentOf z))
         else
-          let z' := if z = (s.nd (s.parentOf z)).right then s.parentOf z else z
-          let s := if z = (s.nd (s.parentOf z)).right then leftRotate s (s.parentOf z) else s
-          let s := s.setRed (s.parentOf z') false
-          let s := s.setRed (s.parentOf (s.parentOf z')) true
-          let s := rightRotate s (s.parentOf (s.parentOf z'))
-          insertFixup f s z'
+          insertFixup f (insCase23L s z).1 (insCase23L s z).2
       else
         let y := (s.nd (s.parentOf (s.parentOf z))).left
         if (s.nd y).red then
-          let s := s.setRed (s.parentOf z) false
-          let s := s.setRed y false
-          let s := s.setRed (s.parentOf (s.parentOf z)) true
-          insertFixup f s (s.parentOf (s.parentOf z))
+          let s' := insCase1 s z y
+          insertFixup f s' (s'.parentOf (s'.parentOf z))
         else
-          let z' := if z = (s.nd (s.parentOf z)).left then s.parentOf z else z
-          let s := if z = (s.nd (s.parentOf z)).left then rightRotate s (s.parentOf z) else s
-          let s := s.setRed (s.parentOf z') false
-          let s := s.setRed (s.parentOf (s.parentOf z')) true
-          let s := leftRotate s (s.parentOf (s.parentOf z'))
-          insertFixup f s z'
+          insertFixup f (insCase23R s z).1 (insCase23R s z).2
     else s.setRed s.root false
 
 /-- result of the descent loop of `mapImp.insert` -/
@@ -202,60 +212,78 @@ def successor (s : St) (x : Nat) : Option Nat :=
   else if (s.nd x).right ≠ 0 then minFrom s.fuel s (s.nd x).right
   else succUp s.fuel s x (s.parentOf x)
 
+/-- `deleteFixup`, `x` a LEFT child, case 1: `if w.Color == RED { w.Color = BLACK; x.Parent.Color = RED; leftRotate(x.Parent) }`
+(afterwards the sibling is re-read as `x.Parent.Right`, which is also its value when the branch is not taken) -/
+def delCase1L (s : St) (x : Nat) : St :=
+  let w := (s.nd (s.parentOf x)).right
+  if (s.nd w).red then
+    let s := s.setRed w false
+    let s := s.setRed (s.parentOf x) true
+    leftRotate s (s.parentOf x)
+  else s
+
+/-- case 3: `if w.Right.Color == BLACK { w.Left.Color = BLACK; w.Color = RED; rightRotate(w) }` -/
+def delCase3L (s : St) (w : Nat) : St :=
+  if (s.nd (s.nd w).right).red = false then
+    let s := s.setRed (s.nd w).left false
+    let s := s.setRed w true
+    rightRotate s w
+  else s
+
+/-- case 4: `w.Color = x.Parent.Color; x.Parent.Color = BLACK; w.Right.Color = BLACK; leftRotate(x.Parent)` -/
+def delCase4L (s : St) (x w : Nat) : St :=
+  let s := s.setRed w (s.nd (s.parentOf x)).red
+  let s := s.setRed (s.parentOf x) false
+  let s := s.setRed (s.nd w).right false
+  leftRotate s (s.parentOf x)
+
+def delCase1R (s : St) (x : Nat) : St :=
+  let w := (s.nd (s.parentOf x)).left
+  if (s.nd w).red then
+    let s := s.setRed w false
+    let s := s.setRed (s.parentOf x) true
+    rightRotate s (s.parentOf x)
+  else s
+
+def delCase3R (s : St) (w : Nat) : St :=
+  if (s.nd (s.nd w).left).red = false then
+    let s := s.setRed (s.nd w).right false
+    let s := s.setRed w true
+    leftRotate s w
+  else s
+
+def delCase4R (s : St) (x w : Nat) : St :=
+  let s := s.setRed w (s.nd (s.parentOf x)).red
+  let s := s.setRed (s.parentOf x) false
+  let s := s.setRed (s.nd w).left false
+  rightRotate s (s.parentOf x)
+
 /-- `mapImp.deleteFixup` -/
 def deleteFixup : Nat → St → Nat → St
   | 0, s, _ => { s with fault := true }
   | f + 1, s, x =>
     if x ≠ s.root ∧ (s.nd x).red = false then
       if x = (s.nd (s.parentOf x)).left then
+        let s := delCase1L s x
         let w := (s.nd (s.parentOf x)).right
-        let s' := if (s.nd w).red then
-            let s := s.setRed w false
-            let s := s.setRed (s.parentOf x) true
-            leftRotate s (s.parentOf x)
-          else s
-        let w := if (s.nd w).red then (s'.nd (s'.parentOf x)).right else w
-        let s := s'
         if (s.nd (s.nd w).left).red = false ∧ (s.nd (s.nd w).right).red = false then
           let s := s.setRed w true
           deleteFixup f s (s.parentOf x)
         else
-          let s' := if (s.nd (s.nd w).right).red = false then
-              let s := s.setRed (s.nd w).left false
-              let s := s.setRed w true
-              rightRotate s w
-            else s
-          let w := if (s.nd (s.nd w).right).red = false then (s'.nd (s'.parentOf x)).right else w
-          let s := s'
-          let s := s.setRed w (s.nd (s.parentOf x)).red
-          let s := s.setRed (s.parentOf x) false
-          let s := s.setRed (s.nd w).right false
-          let s := leftRotate s (s.parentOf x)
+          let s := delCase3L s w
+          let w := (s.nd (s.parentOf x)).right
+          let s := delCase4L s x w
           deleteFixup f s s.root
       else
+        let s := delCase1R s x
         let w := (s.nd (s.parentOf x)).left
-        let s' := if (s.nd w).red then
-            let s := s.setRed w false
-            let s := s.setRed (s.parentOf x) true
-            rightRotate s (s.parentOf x)
-          else s
-        let w := if (s.nd w).red then (s'.nd (s'.parentOf x)).left else w
-        let s := s'
         if (s.nd (s.nd w).left).red = false ∧ (s.nd (s.nd w).right).red = false then
           let s := s.setRed w true
           deleteFixup f s (s.parentOf x)
         else
-          let s' := if (s.nd (s.nd w).left).red = false then
-              let s := s.setRed (s.nd w).right false
-              let s := s.setRed w true
-              leftRotate s w
-            else s
-          let w := if (s.nd (s.nd w).left).red = false then (s'.nd (s'.parentOf x)).left else w
-          let s := s'
-          let s := s.setRed w (s.nd (s.parentOf x)).red
-          let s := s.setRed (s.parentOf x) false
-          let s := s.setRed (s.nd w).left false
-          let s := rightRotate s (s.parentOf x)
+          let s := delCase3R s w
+          let w := (s.nd (s.parentOf x)).left
+          let s := delCase4R s x w
           deleteFixup f s s.root
     else s.setRed x false
 
@@ -277,19 +305,19 @@ def treeDelete (fixed : Bool) (s : St) (z : Nat) : St × Nat :=
     let s := if (s.nd y).red = false then deleteFixup s.fuel s x else s
     (s, if fixed then y else z)
 
+/-- the last node moves into slot `ri`:
+`lastNode := nodes[len-1]; lastNode.NodeIdx = ri; nodes[ri] = lastNode;` then the children of
+`lastNode` (if not NIL) get `SetParent(lastNode)` -/
+def moveLast (s : St) (ri : Nat) : St :=
+  let lastNode := s.nodes.getD (s.nodes.size - 1) 0
+  let s := s.upd lastNode fun n => { n with idx := ri }
+  let s := { s with nodes := s.nodes.setIfInBounds ri lastNode }
+  let s := adopt s (s.nd lastNode).left lastNode
+  adopt s (s.nd lastNode).right lastNode
+
 /-- the slot bookkeeping of `mapImp.Delete` for the vacated node `r` -/
 def vacate (s : St) (r : Nat) : St :=
-  let last := s.nodes.size - 1
-  let s :=
-    if (s.nd r).idx < last then
-      let lastNode := s.nodes.getD last 0
-      let ri := (s.nd r).idx
-      let s := s.upd lastNode fun n => { n with idx := ri }
-      let s := { s with nodes := s.nodes.setIfInBounds ri lastNode }
-      let s := if (s.nd lastNode).left ≠ 0 then s.setParent (s.nd lastNode).left lastNode else s
-      let s := if (s.nd lastNode).right ≠ 0 then s.setParent (s.nd lastNode).right lastNode else s
-      s
-    else s
+  let s := if (s.nd r).idx < s.nodes.size - 1 then moveLast s (s.nd r).idx else s
   { s with nodes := s.nodes.pop }
 
 /-- `mapImp.Delete` -/
